@@ -252,6 +252,49 @@ fn malformed_and_oversized(run: &Run, stub: &Arc<EvmStub>) {
     let _ = std::fs::remove_dir_all(&root);
 }
 
+/// A replicated transaction record is a whole vector supplied by a peer: every entry must belong to
+/// the address of the key it is stored under, whatever its position in the vector.
+fn mixed_transaction_vectors(run: &Run, stub: &Arc<EvmStub>) {
+    let a = [rec::tx(6, 1, 6), rec::tx(6, 2, 6)];
+    let b = rec::tx(9, 7, 9); // validly signed transaction of another owner
+    let key = rec::tx_key(&a[0]);
+    let vectors: Vec<(&str, Vec<Transaction>)> = vec![
+        ("[own, foreign]", vec![a[0].clone(), b.clone()]),
+        ("[foreign, own]", vec![b.clone(), a[0].clone()]),
+        ("[own, own2, foreign]", vec![a[0].clone(), a[1].clone(), b.clone()]),
+        ("[own, foreign, own2]", vec![a[0].clone(), b.clone(), a[1].clone()]),
+        ("[foreign]", vec![b.clone()]),
+    ];
+    for held in [false, true] {
+        for (name, v) in &vectors {
+            let root = fresh_scratch("c04t");
+            let mut rig = NodeRig::new(1, &root, stub.clone());
+            if held {
+                let (n, r) = (rig.node.clone(), rec::txs_record(key.clone(), &[a[1].clone()]));
+                let _ = rig.run("prior", async move { n.store_replicated_in_record(r).await });
+            }
+            let (n, r) = (rig.node.clone(), rec::txs_record(key.clone(), v));
+            let res = rig.run("repl", async move { n.store_replicated_in_record(r).await });
+            let desc = json!({"replicated_transaction_vector": name, "key": "own", "own_key_already_held": held});
+            run.case(desc.to_string().as_bytes(), true);
+            if let Some(bytes) = rig.stored(&key) {
+                let r = Record { key: key.clone(), value: bytes, publisher: None, expires: None };
+                match try_deserialize_record::<Vec<Transaction>>(&r) {
+                    Ok(ts) => {
+                        if ts.iter().any(|t| rec::tx_key(t) != key) {
+                            run.violation("stored-key-is-derived", "foreign-entry-in-vector", format!("{name}: a transaction of another owner is stored under this key (result {res:?})"), json!({"case": desc}));
+                        }
+                    }
+                    Err(_) => run.violation("stored-key-is-derived", "undecodable", format!("{name}: stored bytes do not decode"), json!({"case": desc})),
+                }
+            }
+            check_all_stored_keys_derived(run, &mut rig, &desc);
+            drop(rig);
+            let _ = std::fs::remove_dir_all(&root);
+        }
+    }
+}
+
 pub fn main(tier: Option<&str>) {
     let run = Run::new("C04", "model_checking", tier);
     run.rule(
@@ -290,6 +333,7 @@ pub fn main(tier: Option<&str>) {
     });
     let stub = Arc::new(EvmStub::start());
     malformed_and_oversized(&run, &stub);
+    mixed_transaction_vectors(&run, &stub);
     run.count("states", total as u64);
     run.count("transitions", total as u64);
     run.sample(json!({"kind":"Register","path":"Replication","key":"SameKindOther","derived_key_already_held":true}));
